@@ -81,7 +81,6 @@ def tree_key():
     paths += _walk(os.path.join(REPO, 'java'), {'.java', '.c'})
     paths += [p for p in _walk(os.path.join(REPO, 'data')) if p.endswith('.dat') or '/kissel/' in p]
     _hash_files(h, paths)
-    _hash_files(h, _walk(HARNESS))
     _hash_files(h, [os.path.abspath(__file__), os.path.join(VERIF, 'xv', 'kissel_regen.py'),
                     os.path.join(VERIF, 'xv', 'sigtab.py')])
     h.update(json.dumps(FLAVOURS, sort_keys=True).encode())
@@ -289,10 +288,26 @@ def sigtab():
     return _target('sigtab', mk)
 
 
+def _harness_hash(files, extra=''):
+    """hash over the harness sources a program is made of (its own file + everything it #includes from harness/)"""
+    seen, todo = [], list(files)
+    while todo:
+        f = todo.pop()
+        if f in seen or not os.path.exists(f):
+            continue
+        seen.append(f)
+        for inc in re.findall(r'#\s*include\s+"([^"]+)"', open(f, errors='replace').read()):
+            todo.append(os.path.join(HARNESS, inc))
+    h = hashlib.sha256(extra.encode())
+    _hash_files(h, seen)
+    return h.hexdigest()[:10]
+
+
 def harness(config, flavour, name='xrlmon', extra_src=(), extra_flags=(), cxx=False):
     """compile a harness program (harness/<name>.c[pp]) against lib(config, flavour)"""
     L = lib(config, flavour)
     st = sigtab()
+    hh = _harness_hash([os.path.join(HARNESS, name + ('.cpp' if cxx else '.c'))] + [os.path.join(HARNESS, s) for s in extra_src], ' '.join(extra_flags))
 
     def mk(d):
         src = os.path.join(HARNESS, name + ('.cpp' if cxx else '.c'))
@@ -304,7 +319,7 @@ def harness(config, flavour, name='xrlmon', extra_src=(), extra_flags=(), cxx=Fa
               [src] + [os.path.join(HARNESS, s) for s in extra_src] + \
               [L['a'], '-o', os.path.join(d, name), '-lm', '-lpthread', '-ldl']
         _run(cmd)
-    d = _target('h-%s-%s-%s' % (name, config, flavour), mk)
+    d = _target('h-%s-%s-%s-%s' % (name, config, flavour, hh), mk)
     return os.path.join(d, name)
 
 
@@ -312,6 +327,7 @@ def harness_shared(config, name, extra_flags=()):
     """harness program linked against the *shared* plain library (C16 segment hashing)"""
     L = lib(config, 'plain')
     st = sigtab()
+    hh = _harness_hash([os.path.join(HARNESS, name + '.c')], ' '.join(extra_flags))
 
     def mk(d):
         src = os.path.join(HARNESS, name + '.c')
@@ -319,7 +335,7 @@ def harness_shared(config, name, extra_flags=()):
               [src, '-o', os.path.join(d, name), '-L' + L['dir'], '-lxrl-verif', '-Wl,-rpath,' + L['dir'],
                '-Wl,-z,now', '-lm', '-lpthread', '-ldl']
         _run(cmd)
-    d = _target('hs-%s-%s' % (name, config), mk)
+    d = _target('hs-%s-%s-%s' % (name, config, hh), mk)
     return os.path.join(d, name)
 
 
